@@ -29,6 +29,9 @@ type pkgRules struct {
 	calls    []string // R3 selector calls "pkg.Func" or ".Method"
 	lruGuard bool     // R4 on SizedLRU methods
 	selects  bool     // R5: receive-only selects become scheduler decisions
+	files    []string // restrict to these files (nil: all)
+	sends    bool     // R6: yield before every channel send
+	selects2 bool     // R5b: two-case receive selects with := bindings
 }
 
 var rules = []pkgRules{
@@ -38,6 +41,12 @@ var rules = []pkgRules{
 		calls: []string{"binary.Write", ".Sync", "f.Write", "io.Copy"}},
 	{dir: "utils/tempfile", locks: false,
 		calls: []string{"os.OpenFile"}},
+	// Handlers that run helper goroutines connected by an io.Pipe and result
+	// channels: the order of sends and pipe closes across those goroutines,
+	// and which of two ready results the handler sees first, are scheduling
+	// decisions (R6, R5b).
+	{dir: "server", files: []string{"grpc_bytestream.go", "grpc_cas.go"}, sends: true, selects2: true,
+		calls: []string{"pw.Close", "pw.CloseWithError", "pr.Close", "pr.CloseWithError"}},
 }
 
 var lruMethods = map[string]bool{
@@ -83,6 +92,15 @@ func Generate(repo, shimDir, outDir string) (string, *Stats, error) {
 			n := e.Name()
 			if e.IsDir() || !strings.HasSuffix(n, ".go") || strings.HasSuffix(n, "_test.go") {
 				continue
+			}
+			if r.files != nil {
+				want := false
+				for _, f := range r.files {
+					want = want || f == n
+				}
+				if !want {
+					continue
+				}
 			}
 			src := filepath.Join(dir, n)
 			out, changed, err := instrumentFile(src, r, st)
@@ -263,6 +281,20 @@ func (w *rewriter) rewriteList(list []ast.Stmt) []ast.Stmt {
 				continue
 			}
 		}
+		if w.r.selects2 {
+			if sw := w.rewriteSelect2(stmt); sw != nil {
+				out = append(out, hookCall("Yield", strLit(w.point("R5"))))
+				out = append(out, sw)
+				continue
+			}
+		}
+		if w.r.sends {
+			if _, ok := stmt.(*ast.SendStmt); ok {
+				out = append(out, hookCall("Yield", strLit(w.point("R6/send"))))
+				out = append(out, stmt)
+				continue
+			}
+		}
 		if w.r.locks {
 			if es, ok := stmt.(*ast.ExprStmt); ok {
 				if isMuCall(es.X, "Lock") {
@@ -332,6 +364,75 @@ func (w *rewriter) rewriteSelect(stmt ast.Stmt) ast.Stmt {
 	for i, c := range sel.Body.List {
 		cc := c.(*ast.CommClause)
 		sw.Body.List = append(sw.Body.List, &ast.CaseClause{List: []ast.Expr{intLit(i)}, Body: cc.Body})
+	}
+	return sw
+}
+
+// rewriteSelect2 turns a two-case select whose cases are receives with :=
+// bindings (or none), without default, into
+//
+//	switch __i, __v0, __ok0, __v1, __ok1 := simhook.SelectRecv2(pt, a, b); __i {
+//	case 0: _, _, _, _ = __v0, __ok0, __v1, __ok1; x, ok := __v0, __ok0; A
+//	case 1: ...
+//	}
+func (w *rewriter) rewriteSelect2(stmt ast.Stmt) ast.Stmt {
+	sel, ok := stmt.(*ast.SelectStmt)
+	if !ok || len(sel.Body.List) != 2 {
+		return nil
+	}
+	var chans []ast.Expr
+	var binds [][]ast.Expr
+	anyBind := false
+	for _, c := range sel.Body.List {
+		cc := c.(*ast.CommClause)
+		switch cs := cc.Comm.(type) {
+		case *ast.ExprStmt:
+			u, ok := cs.X.(*ast.UnaryExpr)
+			if !ok || u.Op != token.ARROW {
+				return nil
+			}
+			chans = append(chans, u.X)
+			binds = append(binds, nil)
+		case *ast.AssignStmt:
+			if cs.Tok != token.DEFINE || len(cs.Rhs) != 1 || len(cs.Lhs) > 2 {
+				return nil
+			}
+			u, ok := cs.Rhs[0].(*ast.UnaryExpr)
+			if !ok || u.Op != token.ARROW {
+				return nil
+			}
+			chans = append(chans, u.X)
+			binds = append(binds, cs.Lhs)
+			anyBind = true
+		default:
+			return nil // default or send
+		}
+	}
+	if !anyBind {
+		return nil
+	}
+	id := ast.NewIdent
+	tmp := []ast.Expr{id("__i"), id("__v0"), id("__ok0"), id("__v1"), id("__ok1")}
+	args := append([]ast.Expr{strLit(w.point("R5b"))}, chans...)
+	sw := &ast.SwitchStmt{
+		Init: &ast.AssignStmt{Lhs: tmp, Tok: token.DEFINE, Rhs: []ast.Expr{
+			&ast.CallExpr{Fun: &ast.SelectorExpr{X: id("simhook"), Sel: id("SelectRecv2")}, Args: args}}},
+		Tag:  id("__i"),
+		Body: &ast.BlockStmt{},
+	}
+	for i, c := range sel.Body.List {
+		cc := c.(*ast.CommClause)
+		body := []ast.Stmt{&ast.AssignStmt{
+			Lhs: []ast.Expr{id("_"), id("_"), id("_"), id("_")}, Tok: token.ASSIGN,
+			Rhs: []ast.Expr{id("__v0"), id("__ok0"), id("__v1"), id("__ok1")}}}
+		if b := binds[i]; b != nil {
+			rhs := []ast.Expr{id(fmt.Sprintf("__v%d", i))}
+			if len(b) == 2 {
+				rhs = append(rhs, id(fmt.Sprintf("__ok%d", i)))
+			}
+			body = append(body, &ast.AssignStmt{Lhs: b, Tok: token.DEFINE, Rhs: rhs})
+		}
+		sw.Body.List = append(sw.Body.List, &ast.CaseClause{List: []ast.Expr{intLit(i)}, Body: append(body, cc.Body...)})
 	}
 	return sw
 }
